@@ -287,8 +287,16 @@ func (w *World) syncClock() {
 	w.now = time.Since(w.start)
 }
 
+// the bubble's clock starts in the year 2000 and is a 64-bit nanosecond count: keep well inside its range
+const maxSimTime = 150 * 365 * 24 * time.Hour
+
 func (w *World) advanceTo(at time.Duration) {
 	w.syncClock()
+	if at > maxSimTime {
+		w.timeUp = true
+		w.probe("sim-time-exhausted")
+		return
+	}
 	if at > w.now {
 		time.Sleep(at - w.now)
 		// library goroutines woken by the clock (retry sleeps, real timers) must come to rest before the harness goes on
